@@ -15,6 +15,7 @@ import Proofs.C10ExtStep
 import Proofs.C10ExtInsert
 import Proofs.C10ExtCount
 import Proofs.C10ExtBulk
+import Proofs.C10ExtUpsert
 import Proofs.C10ExtLazy
 import Proofs.C10ExtDemo
 
@@ -249,56 +250,43 @@ example :
 
 /-! ### 4. the counts -/
 
-/-- **update_many_modified_count**, natural reading: `modified_count` is the number of selected
-    documents whose CONTENT changed (the stored document is no longer `==`, as a dict, to what it
-    was).  FALSE of the model and of the code — known finding `modified-order-only`: a document
-    built by an upsert is an OrderedDict, two OrderedDicts compare order-sensitively, and an
-    update that only re-orders its keys (`$rename c -> c`) is counted as a modification. -/
-def update_many_modified_count_full : Prop :=
-  ∀ (cfg : Cfg) (now : Int) (c c' : Coll) (fs : Fields) (u : Val)
-    (sel : List (Val × Val)) (res : UpdateResult),
-    IdInv c → GoodKeys c → c.ttlIndexes = [] →
-    selectDocs (patchDT (.doc fs)) c.docs = .ok sel →
-    applyUpdateColl cfg now c (.doc fs) u false true = (c', .ok res) →
-    res.nModified = (sel.filter (contentChangedAfter c')).length
-
-theorem update_many_modified_count_full_fails : ¬ update_many_modified_count_full :=
-  Proofs.C10Ext.modified_content_false
-
-/-- the witness is the collection `update_one({_id: 1}, {$set: {c: 1, d: 2}}, upsert=True)`
-    leaves, the call `update_many({}, {$rename: {c: "c"}})` -/
-example :
-    ((applyUpdateColl {} 0 {} (.doc [("_id", .int 1)])
-      (.doc [("$set", .doc [("c", .int 1), ("d", .int 2)])]) true false).1.docs
-        == Proofs.C10Ext.cOD.docs &&
-     (applyUpdateColl {} 0 {} (.doc [("_id", .int 1)])
-      (.doc [("$set", .doc [("c", .int 1), ("d", .int 2)])]) true false).1.od
-        == Proofs.C10Ext.cOD.od) = true :=
-  Proofs.C10Ext.cOD_is_upserted
-
-/-- **update_many_modified_count**, proved (collections without TTL index: expiry is C09's):
-    a successful non-upserting `update_many` reports `matched_count` = the number of selected
-    documents and `modified_count` = the number of selected documents whose stored document,
-    AFTER the call, fails the code's own change test against what it was (`Spec.changedAfter`:
-    Python `!=` on dicts, order-sensitive exactly on the documents built by an upsert); the
-    store keys are the same, in the same order, and nothing is upserted. -/
-theorem update_many_modified_count_partial (cfg : Cfg) (now : Int) (c c' : Coll) (fs : Fields)
+/-- **update_many_modified_count** (collections without TTL index: expiry is C09's): a successful
+    non-upserting `update_many` reports `matched_count` = the number of selected documents and
+    `modified_count` = the number of selected documents whose CONTENT changed — the document
+    stored under the entry's key AFTER the call is no longer `==`, as a dict, to what it was
+    (`Spec.contentChangedAfter`; Python `==`: blind to key order and to `1 == 1.0`); the store
+    keys are the same, in the same order, and nothing is upserted.
+    (Until library commit 5452702 this natural reading was false: a document built by an upsert
+    is an OrderedDict, the change test compared two OrderedDicts order-sensitively, and an update
+    that only re-ordered its keys was counted — the repaired finding `modified-order-only`; the
+    theorem was `update_many_modified_count_partial`, stated with the code's own test, next to
+    `…_full_fails` and `…_plain`.) -/
+theorem update_many_modified_count (cfg : Cfg) (now : Int) (c c' : Coll) (fs : Fields)
     (u : Val) (sel : List (Val × Val)) (res : UpdateResult)
     (hi : IdInv c) (hg : GoodKeys c) (hn : c.ttlIndexes = [])
     (hs : selectDocs (patchDT (.doc fs)) c.docs = .ok sel)
     (h : applyUpdateColl cfg now c (.doc fs) u false true = (c', .ok res)) :
-    res.n = sel.length ∧ res.nModified = (sel.filter (changedAfter c c')).length ∧
+    res.n = sel.length ∧ res.nModified = (sel.filter (contentChangedAfter c')).length ∧
     c'.docs.map (·.1) = c.docs.map (·.1) ∧ res.upserted = none :=
   Proofs.C10Ext.update_many_counts cfg now c c' fs u sel res hi hg hn hs h
 
-/-- … and the natural reading holds when no stored document was built by an upsert. -/
-theorem update_many_modified_count_plain (cfg : Cfg) (now : Int) (c c' : Coll) (fs : Fields)
-    (u : Val) (sel : List (Val × Val)) (res : UpdateResult)
-    (hi : IdInv c) (hg : GoodKeys c) (hn : c.ttlIndexes = []) (hod : c.od = [])
-    (hs : selectDocs (patchDT (.doc fs)) c.docs = .ok sel)
-    (h : applyUpdateColl cfg now c (.doc fs) u false true = (c', .ok res)) :
-    res.nModified = (sel.filter (contentChangedAfter c')).length :=
-  Proofs.C10Ext.update_many_modified_plain cfg now c c' fs u sel res hi hg hn hod hs h
+/-- regression example (the witness of the repaired finding `modified-order-only`): the collection
+    `update_one({_id: 1}, {$set: {c: 1, d: 2}}, upsert=True)` leaves; `update_many({},
+    {$rename: {c: "c"}})` matches the document, re-orders its keys (`_id, d, c`), changes nothing
+    of its content — and reports `modified_count` 0; the hypotheses of the theorem hold -/
+example :
+    ((applyUpdateColl {} 0 {} (.doc [("_id", .int 1)])
+      (.doc [("$set", .doc [("c", .int 1), ("d", .int 2)])]) true false).1.docs
+        == Proofs.C10Ext.cUps.docs) = true ∧
+    IdInv Proofs.C10Ext.cUps ∧ GoodKeys Proofs.C10Ext.cUps ∧
+    (match applyUpdateColl {} 0 Proofs.C10Ext.cUps (.doc []) Proofs.C10Ext.renameCC false true with
+     | (c', .ok r) =>
+       r.n == 1 && r.nModified == 0 &&
+       (Proofs.C10Ext.cUps.docs.filter (contentChangedAfter c')).length == 0 &&
+       c'.docs.map (fun p => match p.2 with | .doc fs => dkeys fs | _ => []) == [["_id", "d", "c"]]
+     | _ => false) = true :=
+  ⟨Proofs.C10Ext.cUps_is_upserted, Proofs.C10Ext.cUps_inv, Proofs.C10Ext.cUps_good,
+   Proofs.C10Ext.reorder_not_modified⟩
 
 /-- non-vacuity: `update_many({a: 2}, {$set: {t: 2}})` on `demo` matches 3 documents and modifies
     2 (document 3 already has `t: 2`) -/
@@ -308,20 +296,20 @@ example :
      | (c', .ok res) =>
        res.n == 3 && res.nModified == 2 &&
        (match selectDocs (patchDT (.doc [("a", .int 2)])) demo.docs with
-        | .ok sel => (sel.filter (changedAfter demo c')).map (·.1) == [.int 2, .int 4]
+        | .ok sel => (sel.filter (contentChangedAfter c')).map (·.1) == [.int 2, .int 4]
         | .error _ => false)
      | _ => false) = true := by decide +kernel
 
 /-- **update_one_counts** (`update_one` and `replace_one` are this one call of `_apply_update`):
     `matched_count` is 1 when something is selected and 0 otherwise; `modified_count` is 1 exactly
-    when the FIRST selected document fails the change test after the call; nothing is upserted. -/
+    when the content of the FIRST selected document changed; nothing is upserted. -/
 theorem update_one_counts (cfg : Cfg) (now : Int) (c c' : Coll) (fs : Fields) (u : Val)
     (sel : List (Val × Val)) (res : UpdateResult)
     (hne : c.docs ≠ []) (hi : IdInv c) (hg : GoodKeys c) (hn : c.ttlIndexes = [])
     (hs : selectDocs (patchDT (.doc fs)) c.docs = .ok sel)
     (h : applyUpdateColl cfg now c (.doc fs) u false false = (c', .ok res)) :
     res.n = (sel.take 1).length ∧
-    res.nModified = ((sel.take 1).filter (changedAfter c c')).length ∧
+    res.nModified = ((sel.take 1).filter (contentChangedAfter c')).length ∧
     res.upserted = none :=
   Proofs.C10Ext.update_one_counts cfg now c c' fs u sel res hne hi hg hn hs h
 
@@ -331,7 +319,7 @@ theorem update_one_reports (cfg : Cfg) (now : Int) (c c' : Coll) (fs : Fields) (
     (hne : c.docs ≠ []) (hi : IdInv c) (hg : GoodKeys c) (hn : c.ttlIndexes = [])
     (hs : selectDocs (patchDT (.doc fs)) c.docs = .ok sel) (hup : boolOf up = false)
     (h : stepColl cfg now c (.arr [.str "update_one", .doc fs, u, up]) = (c', .val out)) :
-    out = reportOf (sel.take 1).length ((sel.take 1).filter (changedAfter c c')).length :=
+    out = reportOf (sel.take 1).length ((sel.take 1).filter (contentChangedAfter c')).length :=
   Proofs.C10Ext.update_one_reports cfg now c c' fs u up out sel hne hi hg hn hs hup h
 
 /-- … `replace_one`: the same. -/
@@ -340,7 +328,7 @@ theorem replace_one_reports (cfg : Cfg) (now : Int) (c c' : Coll) (fs : Fields) 
     (hne : c.docs ≠ []) (hi : IdInv c) (hg : GoodKeys c) (hn : c.ttlIndexes = [])
     (hs : selectDocs (patchDT (.doc fs)) c.docs = .ok sel) (hup : boolOf up = false)
     (h : stepColl cfg now c (.arr [.str "replace_one", .doc fs, r, up]) = (c', .val out)) :
-    out = reportOf (sel.take 1).length ((sel.take 1).filter (changedAfter c c')).length :=
+    out = reportOf (sel.take 1).length ((sel.take 1).filter (contentChangedAfter c')).length :=
   Proofs.C10Ext.replace_one_reports cfg now c c' fs r up out sel hne hi hg hn hs hup h
 
 /-- … `update_many`. -/
@@ -349,7 +337,7 @@ theorem update_many_reports (cfg : Cfg) (now : Int) (c c' : Coll) (fs : Fields) 
     (hi : IdInv c) (hg : GoodKeys c) (hn : c.ttlIndexes = [])
     (hs : selectDocs (patchDT (.doc fs)) c.docs = .ok sel) (hup : boolOf up = false)
     (h : stepColl cfg now c (.arr [.str "update_many", .doc fs, u, up]) = (c', .val out)) :
-    out = reportOf sel.length (sel.filter (changedAfter c c')).length :=
+    out = reportOf sel.length (sel.filter (contentChangedAfter c')).length :=
   Proofs.C10Ext.update_many_reports cfg now c c' fs u up out sel hi hg hn hs hup h
 
 /-- non-vacuity: `replace_one({a: 2}, {a: 9})` on `demo` reports matched 1, modified 1 and
@@ -364,6 +352,62 @@ example :
         .doc [("$set", .doc [("x", .int 1)])], .bool false]) with
      | (_, .val out) => out == reportOf 0 0
      | _ => false) = true := by decide +kernel
+
+/-- **An upsert reports no matched document** (library commit 1314e5d): whatever `_id` the
+    upserted document got — null included — `UpdateResult` shows `matched_count` 0 and the stored
+    `_id` as `upserted_id`.  (`UpdateResult.matched_count` used to tell an upsert from a match by
+    `upserted_id is not None`, which a null `_id` defeats: the repaired finding
+    `upsert-null-id-matched`.) -/
+theorem upsert_reports_no_match (r : UpdateResult) (id : Val) (h : r.upserted = some id) :
+    updateOut r = .doc [("matched", .int 0), ("modified", .int r.nModified), ("upserted", id)] :=
+  Proofs.C10Ext.upsert_out r id h
+
+/-- **matched_count = the size of the selection, also on the upsert path**: an upserting
+    `update_one` / `update_many` / `replace_one` whose filter selects nothing (collection with
+    documents, no TTL index) and which succeeds appends exactly one document and reports matched 0
+    (= |selection|), modified 0, upserted = that document's `_id`. -/
+theorem upsert_counts (cfg : Cfg) (now : Int) (c c' : Coll) (fs : Fields) (u : Val)
+    (multi : Bool) (r : UpdateResult)
+    (hne : c.docs ≠ []) (hn : c.ttlIndexes = []) (hi : IdInv c) (hg : GoodKeys c)
+    (hs : selectDocs (patchDT (.doc fs)) c.docs = .ok [])
+    (h : applyUpdateColl cfg now c (.doc fs) u true multi = (c', .ok r)) :
+    ∃ id d, c'.docs = c.docs ++ [(id, d)] ∧ idOf d = some id ∧
+      updateOut r = .doc [("matched", .int 0), ("modified", .int 0), ("upserted", id)] :=
+  Proofs.C10Ext.upsert_reports cfg now c c' fs u multi r hne hn hi hg hs h
+
+/-- … and in a bulk: a successful `UpdateOne` / `UpdateMany` / `ReplaceOne` request that upserted
+    adds nothing to `nMatched`, its `n` to `nUpserted`, and lists the `_id` — null or not — under
+    the request's index. -/
+theorem bulk_upsert_counts (cfg : Cfg) (now : Int) (c c' : Coll) (idx : Nat) (kind : String)
+    (f u up : Val) (g : BulkTotals → BulkTotals) (res : UpdateResult) (id : Val)
+    (hk : kind = "UpdateOne" ∨ kind = "UpdateMany" ∨ kind = "ReplaceOne")
+    (ha : applyUpdateColl cfg now c f u (boolOf up) (kind == "UpdateMany") = (c', .ok res))
+    (hid : res.upserted = some id)
+    (h : bulkOne cfg now c idx (.arr [.str kind, f, u, up]) = (c', .ok g)) (t : BulkTotals) :
+    (g t).nMatched = t.nMatched ∧ (g t).nUpserted = t.nUpserted + res.n ∧
+    (g t).upserted = t.upserted ++ [Val.doc [("index", .int idx), ("_id", id)]] ∧
+    (g t).nModified = t.nModified + res.nModified :=
+  Proofs.C10Ext.bulk_upsert_totals cfg now c c' idx kind f u up g res id hk ha hid h t
+
+/-- non-vacuity of the three, and the regression example of the repaired finding
+    `upsert-null-id-matched` (its witness): on `{_id: 1}`, `update_one({_id: null}, {$set: {a: 1}},
+    upsert=True)` stores `{_id: null, a: 1}` and reports matched 0, upserted null; as the request
+    of a bulk it gives `nMatched` 0, `nUpserted` 1, `upserted: [{index: 0, _id: null}]` -/
+example :
+    let c : Coll := { docs := [(.int 1, .doc [("_id", .int 1)])], forceCreated := true }
+    (match stepColl {} 0 c (.arr [.str "update_one", .doc [("_id", .null)],
+        .doc [("$set", .doc [("a", .int 1)])], .bool true]) with
+     | (c', .val out) =>
+       out == .doc [("matched", .int 0), ("modified", .int 0), ("upserted", .null)] &&
+       c'.docs.map (·.2) == [.doc [("_id", .int 1)], .doc [("_id", .null), ("a", .int 1)]]
+     | _ => false) = true ∧
+    (match bulkWrite {} 0 c [.arr [.str "UpdateOne", .doc [("_id", .null)],
+        .doc [("$set", .doc [("a", .int 1)])], .bool true]] true with
+     | (_, .val (.doc t)) =>
+       dget "nMatched" t == some (.int 0) && dget "nUpserted" t == some (.int 1) &&
+       dget "upserted" t == some (.arr [.doc [("index", .int 0), ("_id", .null)]])
+     | _ => false) = true :=
+  Proofs.C10Ext.null_id_upsert_witness
 
 /-- **update_one vs the shared selection**, natural reading: a successful `update_one` implies
     that the selection is defined (`find` with the same filter does not raise) and
